@@ -1,22 +1,26 @@
 import Driver.RespCmds
 import Driver.StoreCmds
+import Driver.NetCmds
 
 open Driver
 
-partial def loop (h : IO.FS.Stream) (out : IO.FS.Stream) (ss : SS) : IO Unit := do
+partial def loop (h : IO.FS.Stream) (out : IO.FS.Stream) (ss : SS) (ns : NS := {}) : IO Unit := do
   let line ← h.getLine
   if line.isEmpty then return ()
   let toks := (line.trimAscii.toString.splitOn " ").filter (· ≠ "")
   match toks with
-  | [] => out.putStrLn ""; loop h out ss
-  | "#" :: _ => out.putStrLn line.trimAscii.toString; loop h out ss
+  | [] => out.putStrLn ""; loop h out ss ns
+  | "#" :: _ => out.putStrLn line.trimAscii.toString; loop h out ss ns
   | _ =>
     match respStep toks with
-    | some a => out.putStrLn a; loop h out ss
+    | some a => out.putStrLn a; loop h out ss ns
     | none =>
-      match storeStep ss toks with
-      | some (ss', a) => out.putStrLn a; loop h out ss'
-      | none => out.putStrLn "bad-op"; loop h out ss
+      match netStep ns toks with
+      | some (ns', a) => out.putStrLn a; loop h out ss ns'
+      | none =>
+        match storeStep ss toks with
+        | some (ss', a) => out.putStrLn a; loop h out ss' ns
+        | none => out.putStrLn "bad-op"; loop h out ss ns
 
 def main : IO Unit := do
   let stdin ← IO.getStdin
